@@ -339,10 +339,11 @@ class World:
         finally:
             self.deviations = saved
 
-    def run_default_for(self, seconds: float):
-        """Default schedule for a span of virtual time (set-up phases)"""
+    def run_default_for(self, seconds: float, deviations: bool = False):
+        """A span of virtual time under the default schedule (set-up phases) or, with deviations=True, under
+        the explorer's schedule"""
         saved_dev, saved_h = self.deviations, self.horizon
-        self.deviations = False
+        self.deviations = deviations
         self.horizon = self.loop.time() + seconds
         try:
             while self.step():
